@@ -1,0 +1,46 @@
+//go:build verif && linux
+// +build verif,linux
+
+package system
+
+import (
+	"github.com/jsimonetti/rtnetlink"
+	"github.com/mdlayher/netlink"
+)
+
+// Hooks for the deterministic simulator in /verif. They only exist when the
+// "verif" build tag is set; see verif_off.go for the shipped behaviour.
+
+// VerifRtnl, when non-nil, answers rtnetlink requests in place of the kernel.
+var VerifRtnl func(m rtnetlink.Message, family uint16, flags netlink.HeaderFlags) ([]rtnetlink.Message, error)
+
+// VerifLoopbacks, when non-nil, reports the indexes of the loopback
+// interfaces which are up, in place of net.Interfaces.
+var VerifLoopbacks func() ([]int, error)
+
+func verifRtnlHook() func(rtnetlink.Message, uint16, netlink.HeaderFlags) ([]rtnetlink.Message, error) {
+	return VerifRtnl
+}
+
+func verifLoopbacksHook() func() ([]int, error) { return VerifLoopbacks }
+
+// verifLoopbackRoutes gathers routes for the simulated loopback interfaces
+// using the same per-interface code path as the real implementation.
+func (a *addresser) verifLoopbackRoutes(loopbacks func() ([]int, error)) ([]Route, error) {
+	idxs, err := loopbacks()
+	if err != nil {
+		return nil, err
+	}
+
+	var routes []Route
+	for _, idx := range idxs {
+		rs, err := a.routesByIndex(idx)
+		if err != nil {
+			return nil, err
+		}
+
+		routes = append(routes, rs...)
+	}
+
+	return routes, nil
+}
